@@ -3,7 +3,7 @@ homology; comparison).  See oracles.py for conventions."""
 import itertools, random, json, math
 from harness import impl
 from harness.impl import tok, parse_name, SimplicialComplex, Filtration
-from harness.oracles import oracle, family, classify, is_auto, full_obs, vs
+from harness.oracles import oracle, family, classify, is_auto, full_obs, vs, has
 
 # ---------------------------------------------------------------- small linear algebra over GF(2)
 def gf2_rank(rows):
@@ -84,7 +84,7 @@ def o_c02_pre(w, args):
     kw = args[1]
     if kw in ('del', 'subdiv'):
         s = T.name()
-        if s in c:
+        if has(c, s):
             st['V'] = vs(c, s)
     if kw == 'addfrom':
         src = w.vars.get(toks[2])
@@ -426,7 +426,7 @@ def o_c10(w, args):
     a = w.vars[args[0]]; b = w.vars[args[1]]
     def le(x, y):
         for s in x.simplices():
-            if s not in y: return False
+            if not has(y, s): return False
             if y.orderOf(s) != x.orderOf(s): return False
             if set(map(tok, y.faces(s))) != set(map(tok, x.faces(s))): return False
         return True
